@@ -39,8 +39,7 @@ def arg2txt(a):
                     if c==1:
                         return reglist_for_size[r][reg_no]
                     return "%s*%d"%(reglist_for_size[r][reg_no],c)
-        TODO
-        return a
+        raise ValueError("Cannot combine %r with another register"%a)
     if x86_afs.imm in a:
         return a[x86_afs.imm]
     return a
